@@ -199,6 +199,7 @@ func (c *Config) allProxies() []*Section {
 type CrtEntry struct {
 	File    string
 	Filters []string
+	Opts    []string // the bind options between `[` and `]` (alpn …, ca-file <f>, crl-file <f>, verify …)
 }
 
 func ReadCrtList(file string) []CrtEntry {
@@ -213,9 +214,21 @@ func ReadCrtList(file string) []CrtEntry {
 			continue
 		}
 		e := CrtEntry{File: toks[0]}
+		in := false
 		for _, t := range toks[1:] {
 			if strings.HasPrefix(t, "[") {
-				continue // bind options
+				in = true
+				t = t[1:]
+			}
+			if in {
+				closing := strings.HasSuffix(t, "]")
+				if t = strings.TrimSuffix(t, "]"); t != "" {
+					e.Opts = append(e.Opts, t)
+				}
+				if closing {
+					in = false
+				}
+				continue
 			}
 			e.Filters = append(e.Filters, t)
 		}
